@@ -35,7 +35,7 @@ func init() {
 		},
 		Run:         runC19,
 		Assumptions: []string{"inputs are plain non-negative decimals without exponent or sign, at most nine fractional digits, at most 30 significant digits"},
-		Need:        []string{"conversions", "command_runs"},
+		Need:        []string{"conversions", "command_runs", "cli_runs"},
 	})
 }
 
@@ -193,14 +193,22 @@ func runC19(c *fw.Ctx) {
 			}
 		}
 	}
-	// thorough: the built CLI on a few inputs (binary path via VERIF_UND_BIN, built by check.sh)
-	if bin := os.Getenv("VERIF_UND_BIN"); bin != "" && c.Thorough() && c.Case < 8 {
-		for _, in := range inputs[:4] {
+	// the built binary (`und convert`, through the root command and everything it wraps around the
+	// sub-command; path via VERIF_UND_BIN, built by check.sh): a few inputs per case - the first ones
+	// of the case and whole amounts written with an all-zero fraction ("120.00")
+	if bin := os.Getenv("VERIF_UND_BIN"); bin != "" && ((c.Thorough() && c.Case < 32) || (!c.Thorough() && c.Case < 24)) {
+		bins := append([]string{}, inputs[:3]...)
+		for i := 0; i < 3; i++ {
+			w := fmt.Sprintf("%d%s", c.Rng.Range(1, 9999), strings.Repeat("0", c.Rng.Range(0, 3)))
+			bins = append(bins, w+"."+strings.Repeat("0", c.Rng.Range(1, 9)))
+		}
+		for _, in := range bins {
 			out, err := exec.Command(bin, "convert", in, "fund", "nund").CombinedOutput()
 			c.Count("cli_runs", 1)
-			want := fmt.Sprintf("%sfund = %snund", in, exactFundToNund(in).String())
-			if err != nil || !strings.Contains(string(out), want) {
-				c.Violate("cli-fund-to-nund", "cli", "und convert %s fund nund printed %q (err %v), want %q", in, strings.TrimSpace(string(out)), err, want)
+			want := exactFundToNund(in).String() + "nund"
+			got := strings.TrimSpace(string(out))
+			if err != nil || !strings.HasSuffix(got, "= "+want) || !strings.HasPrefix(got, in+"fund") {
+				c.Violate("cli-fund-to-nund", "cli", "und convert %s fund nund printed %q (err %v), want \"%sfund = %s\"", in, got, err, in, want)
 			}
 		}
 	}
